@@ -327,12 +327,33 @@ def port_cmd(rng):
     return rng.choice(["Port", "PORT"]) + rng.choice(["(1+1)", "(A)", "({3})", "(-X)"])
 
 
+TEMPO_VALUES = ["120", "60", "80", "200", "300", "301", "10", "9", "1", "0", "-1", "-120", "500", "1000", "60000000", "60000001", "$78", "255", "256",
+                "16777215", "16777217", "2147483647"]
+TEMPO_LENS = ["!1", "!2", "!4", "!8", "!16", "!1.", "!2^4", "0", "1", "23", "24", "25", "96", "384", "100", "-1", "-96", "1000", "4000", "40000", "40001", "!1^1^1"]
+
+
+def tempo_change_cmd(rng):
+    k = rng.random()
+    name = "TempoChange"
+    if k < 0.25:
+        return name + arg_form(rng, rng.choice(TEMPO_VALUES))
+    if k < 0.50:
+        return name + arg_form(rng, rng.choice(TEMPO_VALUES) + rng.choice([",", ", ", " ,"]) + rng.choice(TEMPO_LENS))
+    if k < 0.86:
+        return name + arg_form(rng, rng.choice(TEMPO_VALUES) + rng.choice([",", ", "]) + rng.choice(TEMPO_VALUES) + rng.choice([",", ", ", " , "]) + rng.choice(TEMPO_LENS))
+    if k < 0.96:
+        return name + rng.choice(["()", ";", "(,)", "(,,)", "(120,,)", "(,80,!4)", "(1,2,3,4)", "(80,120,!1,5)", "=;", "(80:120:!4)", "(80,)"])
+    return name + rng.choice(["(80+1)", "(A,120,!4)", "(80,120,!4+1)", "(Tempo,90,!2)"])
+
+
 def sys_cmd(rng):
     """one command of the families the pipeline model gained last"""
     k = rng.random()
-    if k < 0.5:
+    if k < 0.4:
         return meta_cmd(rng)
-    return port_cmd(rng)
+    if k < 0.6:
+        return port_cmd(rng)
+    return tempo_change_cmd(rng)
 
 
 def pipe_program(rng, size=None):
